@@ -676,6 +676,41 @@ impl Check for C02 {
                 plan(d, rc::apdu((f[0], f[1]), &body), if t.is_empty() { "truncate" } else { "ber" })
             }));
         }
+        // 2b. the byte at every offset rewritten as a BER length prefix in every other form: where it *is* a
+        // length, the field keeps its value in a non-minimal / long form (81 n, 82 00 n, 83.., 84..), elsewhere
+        // it is one more corruption; also lengths that point far beyond the buffer
+        {
+            let (c, o) = (corpus.clone(), offs.clone());
+            const NF: u64 = 9;
+            fams.push(Family::new("ber_length_form_at_every_offset", no * NF * nd, true, move |i, _| {
+                let d = ALL_DECS[(i % nd) as usize];
+                let form = (i / nd) % NF;
+                let (ci, off) = o[(i / nd / NF) as usize];
+                let f = &c[ci as usize];
+                let (h, _) = rc::frame_dims(f).unwrap_or((3, 0));
+                let off = (off as usize).max(h).min(f.len().saturating_sub(1));
+                if f.len() <= h {
+                    return plan(d, f.clone(), "ber_form");
+                }
+                let mut body = f[h..].to_vec();
+                let at = off - h;
+                let n = body[at];
+                let rep: Vec<u8> = match form {
+                    0 => vec![0x81, n],
+                    1 => vec![0x82, 0x00, n],
+                    2 => vec![0x83, 0x00, 0x00, n],
+                    3 => vec![0x84, 0x00, 0x00, 0x00, n],
+                    4 => vec![0x82, 0x01, n],
+                    5 => vec![0x82, 0xff, 0xff],
+                    6 => vec![0x84, 0xff, 0xff, 0xff, 0xff],
+                    7 => vec![0x88, 0, 0, 0, 0, 0, 0, 0, n],
+                    _ => vec![0x80],
+                };
+                body.splice(at..at + 1, rep);
+                body.truncate(65535);
+                plan(d, rc::apdu((f[0], f[1]), &body), "ber_form")
+            }));
+        }
         // 3. runs of 0x99 (BCD digits beyond the integer width), every offset
         {
             let (c, o) = (corpus.clone(), offs.clone());
